@@ -8,7 +8,11 @@ CONSTANTS
   BoundLen = 1
   Limits = {0, 1, 2}
   Stops = {0, 1}
-  Walk = FALSE
+  Mode = "cases"
+  L = 333
+  Sizes = {}
+  HistStores <- HistStoresQuick
+  HistKinds = {}
   MaxSteps = 1
 INVARIANTS TypeOK ImplAgreesOpen Isolated
 CHECK_DEADLOCK FALSE
